@@ -617,6 +617,26 @@ impl SurfaceWorld {
                 ctx.call("TaprootSpendInfo::control_block", 0, || info.control_block(&probe).is_some());
             }
         }
+        // NodeInfo::combine on a leaf whose merkle branch is already as long as the format allows (and beyond)
+        {
+            use elements::taproot::{NodeInfo, TapNodeHash};
+            let mut node = Some(NodeInfo::new_leaf_with_ver(gen::script(&mut p, 10), LeafVersion::default()));
+            let levels = *p.pick(&[3usize, 127, 128, 129, 131]);
+            for lvl in 0..levels {
+                let Some(cur) = node.take() else { break };
+                let h = NodeInfo::new_hidden(TapNodeHash::from_byte_array(p.arr32()));
+                let first = p.coin();
+                let r = ctx.call("NodeInfo::combine", 0, || if first { NodeInfo::combine(cur, h) } else { NodeInfo::combine(h, cur) });
+                match r {
+                    Some(Ok(n)) => node = Some(n),
+                    Some(Err(_)) => {
+                        ctx.sig_n("combine_refused_at", lvl as u64);
+                        break;
+                    }
+                    None => break,
+                }
+            }
+        }
         // Huffman builder with arbitrary weights (including zero and maximal ones, and many leaves)
         let k = match p.below(4) {
             0 => 0,
